@@ -116,6 +116,11 @@ func (w *xw) open(name string, attrs []attr, empty bool) {
 	}
 	w.sb.WriteString(">")
 	if empty {
+		// an element without content may still hold whitespace and comments
+		// between its tags
+		if w.l.Whitespace && w.rnd.Intn(3) == 0 {
+			w.sb.WriteString([]string{" ", "\n  ", "<!-- empty -->", "\n<!-- a --> \n"}[w.rnd.Intn(4)])
+		}
 		w.sb.WriteString("</" + name + ">")
 	}
 }
@@ -136,7 +141,13 @@ func (w *xw) unknownChild() {
 	if !w.l.UnknownElems || w.rnd.Intn(3) != 0 {
 		return
 	}
-	switch w.rnd.Intn(3) {
+	switch w.rnd.Intn(5) {
+	case 3:
+		// names that are void elements in HTML, written as ordinary XML
+		// start/end pairs with something in between
+		w.sb.WriteString([]string{`<meta name="x"> </meta>`, `<link rel="self" href="http://x/"><!-- l --></link>`, "<br>\n</br>", `<img src="i.png"> </img>`, `<input><param k="v"/></input>`}[w.rnd.Intn(5)])
+	case 4:
+		w.sb.WriteString(`<hr/><col span="2"></col>`)
 	case 0:
 		w.sb.WriteString(`<x-meta a="1"/>`)
 	case 1:
@@ -446,7 +457,9 @@ func noteDate(ns int64) string { return T(ns).Format("2006-01-02 15:04:05") + " 
 func (w *xw) note(n *Note) {
 	w.open("note", []attr{{"lat", w.f(n.Lat)}, {"lon", w.f(n.Lon)}}, false)
 	var cs []func()
-	cs = append(cs, func() { w.text("id", i64(n.ID)) })
+	if n.ID != 0 || w.rnd.Intn(2) == 0 {
+		cs = append(cs, func() { w.text("id", i64(n.ID)) })
+	}
 	for _, kv := range []struct{ k, v string }{{"url", n.URL}, {"comment_url", n.CommentURL}, {"close_url", n.CloseURL}, {"reopen_url", n.ReopenURL}, {"status", n.Status}} {
 		kv := kv
 		if kv.v != "" {
@@ -598,7 +611,7 @@ func (w *xw) items(items []Item) {
 			// unknown top-level elements never contain OSM element names: the streaming
 			// scanner documents that it dispatches on element names at any depth
 			w.ws()
-			w.sb.WriteString(`<x-stats count="3"><bucket n="1">a &amp; b</bucket></x-stats>`)
+			w.sb.WriteString([]string{`<x-stats count="3"><bucket n="1">a &amp; b</bucket></x-stats>`, `<meta osm_base="2020-01-01T00:00:00Z"> </meta>`, "<link rel=\"next\">\n<!-- c --></link>"}[w.rnd.Intn(3)])
 		}
 	}
 	w.ws()
